@@ -28,6 +28,11 @@ TABLE = {
     "Perturb_c07_quick": dict(BASE, PKinds="KGarb", MaxEdits=1, DumpMod=8),
     "Perturb_c07_thorough": dict(BASE, PKinds="KGarb", MaxEdits=1, DumpMod=1),
     "Perturb_c07_sim": dict(SIM, PKinds="KGarbLay", MaxEdits=4),
+    # garbage in every position of sequences of two program units of every kind (a headerless main program first or last ...)
+    "Perturb_c07u_quick": dict(BASE, PKinds="KGarb", MaxEdits=1, MaxStmts=4, MaxDepth=1, MaxUnits=2, UnitKinds="AllUnits", ConKinds="Empty", SpecKinds="Empty",
+                               UseV="Empty", FormatV="Empty", NameChoices="Set1", EndForms="Set02", Contains="FALSE", DumpMod=41),
+    "Perturb_c07u_thorough": dict(BASE, PKinds="KGarb", MaxEdits=1, MaxStmts=4, MaxDepth=1, MaxUnits=2, UnitKinds="AllUnits", ConKinds="Empty", SpecKinds="Empty",
+                                  UseV="Empty", FormatV="Empty", NameChoices="Set1", EndForms="Set02", Contains="FALSE", DumpMod=2),
     "Perturb_c08_quick": dict(BASE, PKinds="KStruct", MaxEdits=1, ConKinds="NestCons", DumpMod=11),
     "Perturb_c08b_quick": dict(BASE, PKinds="KRenCmt", MaxEdits=2, MinEdits=2, NeedStruct="TRUE", ConKinds="NestCons", DumpMod=2, NCmtCls=2, NCppForms=2),
     "Perturb_c08b_thorough": dict(BASE, PKinds="KRenCmt", MaxEdits=2, MinEdits=2, NeedStruct="TRUE", ConKinds="NestCons", DumpMod=1, NCmtCls=3, NCppForms=4),
